@@ -105,6 +105,27 @@ theorem netted_form_sub {a b r : Equil α} (h : sub a b = .ok r) :
   obtain ⟨nb, h1, h2⟩ := sub_ok h
   exact ⟨nb, h1, fun k => by rw [activeNet_rmul h1]; ring, netted_add h2⟩
 
+/-- results of arithmetic are stored as the constructor stores plain dicts: every container sorted by key
+    (code-point order), whatever the order of the operands' containers was -/
+theorem results_sorted {n : Int} {e a b r : Equil α} (h : rmul n e = .ok r ∨ add a b = .ok r ∨ sub a b = .ok r) :
+    SortedKeys r.reac ∧ SortedKeys r.prod ∧ SortedKeys r.inactReac ∧ SortedKeys r.inactProd := by
+  have hadd : ∀ {x y : Equil α}, add x y = .ok r →
+      SortedKeys r.reac ∧ SortedKeys r.prod ∧ SortedKeys r.inactReac ∧ SortedKeys r.inactProd := by
+    intro x y h'
+    obtain ⟨_, _, hr, _⟩ := add_ok h'
+    subst hr
+    exact ⟨sorted_sortByKey _, sorted_sortByKey _, List.Pairwise.nil, List.Pairwise.nil⟩
+  rcases h with h | h | h
+  · obtain ⟨_, _, hr, _⟩ := rmul_ok h
+    by_cases hn : n < 0
+    · rw [if_pos hn] at hr; subst hr
+      exact ⟨sorted_sortByKey _, sorted_sortByKey _, sorted_sortByKey _, sorted_sortByKey _⟩
+    · rw [if_neg hn] at hr; subst hr
+      exact ⟨sorted_sortByKey _, sorted_sortByKey _, sorted_sortByKey _, sorted_sortByKey _⟩
+  · exact hadd h
+  · obtain ⟨nb, _, h2⟩ := sub_ok h
+    exact hadd h2
+
 /-! ### every expression tree (the "histories" quantifier) -/
 
 /-- For **every** expression `t` built from equilibria without inactive parts by integer scaling (`n * x`, `x * n`),
@@ -169,6 +190,16 @@ theorem intdiv_spec (p q : Int) (hq : q ≠ 0) :
   · have := Int.tmod_nonneg q (show 0 ≤ -p by omega)
     rw [Int.neg_tmod] at this
     omega
+
+/-- `cancel` (supporting, not part of the property text): for the iteration order `ks` of `rxn.keys()` the result is
+    `intdiv(-ν_self(k), ν_rxn(k))` for some key `k`, of least absolute value among all keys (so its absolute value does
+    not depend on the set order; its sign can, on ties); `inf` (`none`) exactly for an empty key set; a key of `rxn`
+    with net coefficient 0 makes the real code raise `ZeroDivisionError` instead. -/
+theorem cancel_spec {self rxn : Equil α} {ks : List String} {c : Option Int}
+    (h : cancelWith self rxn ks = .ok c) :
+    (∀ k ∈ ks, rxn.net k ≠ 0) ∧ (c = none ↔ ks = []) ∧
+    (∀ r, c = some r → (∃ k ∈ ks, r = intdiv (-(self.net k)) (rxn.net k)) ∧
+        ∀ k ∈ ks, r.natAbs ≤ (intdiv (-(self.net k)) (rxn.net k)).natAbs) := cancelWith_ok h
 
 /-- `as_reactions`: the pair is the forward and the backward direction of the equilibrium (inactive parts
     included) and the rate constants satisfy `kf = kb · K · c₀^(nb − nf)`, the given one being kept. -/
